@@ -80,7 +80,7 @@ package helper
 //@     invariant lenl: len(L) == card(C0)
 
 //@ func GetPodOrdinalsFromReplicasAndDeleteSlots
-//@   lemmas count_bound, count_store, card_range, desired_bridge
+//@   lemmas count_bound, count_store, count_empty, card_range, desired_bridge
 //@   requires replicas >= 0
 //@   requires replicas + card(deleteSlots) <= MaxInt32
 //@   ensures [C01] members: forall x int32 :: {result.has(x)} result.has(x) <==> desired(replicas, old(dom(deleteSlots)), x)
